@@ -10,7 +10,7 @@ from prop import SchedProp  # noqa: E402
 
 class C01(SchedProp):
     id = 'C01'
-    gen_opts = {'p_multirec': 0.25}
+    gen_opts = {'p_multirec': 0.25, 'p_boundrec': 0.25, 'fail_signals': True, 'p_lose': 0.25}
     props_modules = ['CylcModel.Props.C01']
     theorems = [
         'CylcModel.C01.submit_sound',
@@ -41,14 +41,20 @@ class C01(SchedProp):
         '(def closure_complete_full; needs the no-deadlock argument of C04) - proved of it: auto_shutdown_quiescent; '
         'it is decided by the judge on every real run of kind complete; the judge also decides, for every run that shut down '
         'by itself, that every graph-implied parentless instance (valid point of the task + TaskDef.is_parentless, '
-        'independently of next_point_parentless, which the model takes from the implementation) was submitted. Not in Sched v1: commands, several flows, '
+        'independently of next_point_parentless, which the model takes from the implementation) was submitted, that a '
+        'complete output comes with the outputs it implies (succeeded / failed => started => submitted), and that the '
+        'prerequisites of every instance of the extracted graph are those of the recurrences the instance is valid on '
+        '(harness key pre_spec: TaskDef.dependencies + Sequence.is_valid, not the TaskProxy). The JSON layer of the model '
+        '(SchedPF.canonMsg) reads failed/<SIGNAL> and aborted/<reason> as the output failed. Not in Sched v1: commands, several flows, '
         'xtriggers, datetime cycling, families (expanded before the model)')
     technique = ('refinement of the Lean scheduler model to atomic actions + inductive invariants over all op lists + '
                  'trace correspondence with the real Scheduler + trace judge')
     trusted = ['the runner instrumentation (wrappers around TaskPool.remove / process_message that only record)']
     rule = ('generated integer-cycling workflows (2-6 tasks, 1-3 recurrences, in a quarter of them additionally one '
             'parentless task on two recurrences with interleaving points (different step or phase) with or without a '
-            'child per recurrence, AND/OR/parenthesised triggers, inter-cycle, '
+            'child per recurrence, in a quarter a task on P1 and on a bounded stepped recurrence Rn/<point>/Pk with a '
+            'trigger of its own there; failing jobs report the failure as job scripts do (failed/<SIGNAL>, aborted/<reason>) '
+            'and a message other than the last of a job is lost with probability 0.25, AND/OR/parenthesised triggers, inter-cycle, '
             'pre-initial and absolute offsets, optional and custom outputs, suicide triggers, sequential tasks, retries, '
             'warm starts, stop points, runahead P0-P3) driven through the real Scheduler by a seeded adaptive schedule of '
             'main loops, submit results and job messages; kind complete = every finished task completes its required '
